@@ -6,6 +6,11 @@
 //                 remote/local parents with arbitrary flags and trace state, every built-in sampler
 //                 and a scripted sampler (DROP / RECORD_ONLY / RECORD_AND_SAMPLE, optional trace
 //                 state), random and scripted id generators; oracle = parent-resolution model
+//                 The active span may also be a span this tracer did not create: a DefaultSpan
+//                 wrapping a generated (valid / half-valid / all-zero, remote, arbitrary flags, trace
+//                 state) context - the post-Extract situation -, a NoopTracer span, or a live span of
+//                 another provider; explicit Contexts may hold an INVALID span with or without the
+//                 root marker, or be a snapshot of the runtime context.
 //   tree_threads  2..3 real threads each running its own program on its own active-span stack
 //   fork_ids      ids drawn by parent and child after fork() differ
 #include <sys/wait.h>
@@ -29,6 +34,8 @@
 #include "opentelemetry/sdk/trace/span_data.h"
 #include "opentelemetry/sdk/trace/tracer_provider.h"
 #include "opentelemetry/trace/context.h"
+#include "opentelemetry/trace/default_span.h"
+#include "opentelemetry/trace/noop.h"
 #include "opentelemetry/trace/scope.h"
 #include "opentelemetry/trace/span.h"
 #include "opentelemetry/trace/tracer.h"
@@ -46,8 +53,9 @@ namespace ctxn = opentelemetry::context;
 
 struct Exported
 {
-  std::string trace_id, span_id, parent_id;
-  uint8_t flags;
+  std::string trace_id, span_id, parent_id, trace_state;
+  uint8_t flags;      // Recordable::SetTraceFlags
+  uint8_t ctx_flags;  // flags of the SpanContext given to Recordable::SetIdentity
 };
 struct Sink
 {
@@ -69,8 +77,9 @@ public:
     for (auto &r : batch)
     {
       auto &d = static_cast<sdkt::SpanData &>(*r);
-      sink_->spans.push_back(Exported{sg::hex(d.GetTraceId()), sg::hex(d.GetSpanId()),
-                                      sg::hex(d.GetParentSpanId()), d.GetFlags().flags()});
+      sink_->spans.push_back(Exported{sg::hex(d.GetTraceId()), sg::hex(d.GetSpanId()), sg::hex(d.GetParentSpanId()),
+                                      d.GetSpanContext().trace_state()->ToHeader(), d.GetFlags().flags(),
+                                      d.GetSpanContext().trace_flags().flags()});
     }
     return otel::sdk::common::ExportResult::kSuccess;
   }
@@ -107,30 +116,64 @@ public:
   otel::nostd::string_view GetDescription() const noexcept override { return "Scripted"; }
 };
 
+// The scripted ("custom") id generator.  Ids are recognisable, so that the oracle can tell that an id
+// came from the CONFIGURED generator: span id = C5 | 56-bit counter; trace id = mix64(counter) in bytes
+// 0..7 (the bytes TraceIdRatioBased looks at: the ratio decision varies from trace to trace) and
+// C5 | counter in bytes 8..15.  The C5 regions cannot coincide with the boundary patterns of the
+// generated explicit parents (00..01, ff..ff, only-first-byte-set).  The counter restarts with every
+// case (make_env), so a case is a pure function of its bytes.
 std::atomic<uint64_t> g_id_counter{1};
+inline uint64_t mix64(uint64_t x)
+{
+  x += 0x9e3779b97f4a7c15ull;
+  x = (x ^ (x >> 30)) * 0xbf58476d1ce4e5b9ull;
+  x = (x ^ (x >> 27)) * 0x94d049bb133111ebull;
+  return x ^ (x >> 31);
+}
+inline void put_be64(uint8_t *b, uint64_t v)
+{
+  for (int i = 0; i < 8; ++i)
+    b[i] = static_cast<uint8_t>(v >> (8 * (7 - i)));
+}
+inline uint64_t get_be64(const uint8_t *b)
+{
+  uint64_t v = 0;
+  for (int i = 0; i < 8; ++i)
+    v = (v << 8) | b[i];
+  return v;
+}
+constexpr uint64_t kCounterMask = 0x00ffffffffffffffull;
+constexpr uint64_t kCounterTop  = 0xC500000000000000ull;
 class CounterIdGenerator final : public sdkt::IdGenerator
 {
 public:
   explicit CounterIdGenerator(bool random) : sdkt::IdGenerator(random) {}
   tr::SpanId GenerateSpanId() noexcept override
   {
-    // the counter ids live in their own region (top byte 0xC5) so that they cannot coincide with
-    // the generated explicit parent ids (which include the boundary pattern 00..01)
-    uint64_t v = g_id_counter.fetch_add(1) | 0xC500000000000000ull;
     uint8_t b[8];
-    for (int i = 0; i < 8; ++i)
-      b[i] = static_cast<uint8_t>(v >> (8 * (7 - i)));
+    put_be64(b, (g_id_counter.fetch_add(1) & kCounterMask) | kCounterTop);
     return tr::SpanId(b);
   }
   tr::TraceId GenerateTraceId() noexcept override
   {
-    uint64_t v     = g_id_counter.fetch_add(1);
-    uint8_t b[16]  = {0xc0, 0xde};
-    for (int i = 0; i < 8; ++i)
-      b[8 + i] = static_cast<uint8_t>(v >> (8 * (7 - i)));
+    uint64_t v = g_id_counter.fetch_add(1) & kCounterMask;
+    uint8_t b[16];
+    put_be64(b, mix64(v));
+    put_be64(b + 8, v | kCounterTop);
     return tr::TraceId(b);
   }
 };
+bool is_counter_span_id(const tr::SpanId &id)
+{
+  return id.Id()[0] == 0xC5;
+}
+bool is_counter_trace_id(const tr::TraceId &id)
+{
+  const uint8_t *b = id.Id().data();
+  if (b[8] != 0xC5)
+    return false;
+  return get_be64(b) == mix64(get_be64(b + 8) & kCounterMask);
+}
 
 enum SamplerKind
 {
@@ -150,8 +193,26 @@ struct Env
   std::shared_ptr<sdkt::TracerProvider> provider;
   otel::nostd::shared_ptr<tr::Tracer> tracer;
   SamplerKind sk;
-  double ratio = 0.5;
+  double ratio      = 0.5;
+  bool scripted_ids = false;
   std::unique_ptr<sdkt::Sampler> ref_ratio;  // a second instance, for the expected decision
+  // a second, unrelated provider (always-on, random ids, its own throw-away sink): its spans are
+  // "foreign" spans that a program may make active.  Built on first use.
+  std::shared_ptr<std::mutex> other_mu = std::make_shared<std::mutex>();
+  std::shared_ptr<sdkt::TracerProvider> other_provider;
+  otel::nostd::shared_ptr<tr::Tracer> other_tracer;
+  otel::nostd::shared_ptr<tr::Tracer> other()
+  {
+    std::lock_guard<std::mutex> g(*other_mu);
+    if (!other_provider)
+    {
+      std::unique_ptr<sdkt::SpanProcessor> proc(new sdkt::SimpleSpanProcessor(
+          std::unique_ptr<sdkt::SpanExporter>(new CaptureExporter(std::make_shared<Sink>()))));
+      other_provider = std::make_shared<sdkt::TracerProvider>(std::move(proc));
+      other_tracer   = other_provider->GetTracer("c05-other");
+    }
+    return other_tracer;
+  }
 };
 
 std::unique_ptr<sdkt::Sampler> make_sampler(SamplerKind k, double ratio)
@@ -182,13 +243,17 @@ Env make_env(vh::Case &c)
 {
   vh::Reader &rd = c.rd;
   Env e;
-  e.sink  = std::make_shared<Sink>();
+  g_id_counter.store(1);  // no state leaks from one case into the next
+  tl_script        = Script();
+  tl_sampler_calls = 0;
+  e.sink           = std::make_shared<Sink>();
   e.sk    = static_cast<SamplerKind>(rd.weighted({3, 2, 2, 2, 1, 2, 4, 2}));
   static const double ratios[] = {0.5, 0.0, 1.0, 0.01, 0.99, 1e-9};
   e.ratio = ratios[rd.below(6)];
   e.ref_ratio.reset(new sdkt::TraceIdRatioBasedSampler(e.ratio));
   bool scripted_ids = rd.chance(40);
   bool is_random    = rd.coin();
+  e.scripted_ids    = scripted_ids;
   std::unique_ptr<sdkt::IdGenerator> idg;
   if (scripted_ids)
     idg.reset(new CounterIdGenerator(is_random));
@@ -215,15 +280,31 @@ struct LiveSpan
   bool ended          = false;
 };
 
+// one entry of the model's active-span stack: the context of the span that was made active (one of this
+// tracer's spans or a foreign one - then possibly INVALID) and the scope that keeps it active
+struct ActiveEntry
+{
+  tr::SpanContext ctx = tr::SpanContext::GetInvalid();
+  std::string label;
+  std::unique_ptr<tr::Scope> scope;
+};
+
+struct ExpectExport  // what the exporter must see for a recorded span
+{
+  std::string span_id, parent_id, trace_id, trace_state;
+  uint8_t flags;
+};
+
 struct ThreadResult
 {
   std::string notes;
   std::string error;
   std::vector<std::string> tags;
   bool nontrivial = false;
-  std::vector<std::pair<std::string, std::string>> expect_exported;  // (span id, parent id) for recorded+ended spans
-  std::vector<std::string> never_exported;                           // span ids of non-recorded spans
+  std::vector<ExpectExport> expect_exported;  // recorded spans (all are ended by the end of the program)
+  std::vector<std::string> never_exported;    // span ids of non-recorded spans
   std::vector<std::string> all_span_ids, new_trace_ids;
+  std::vector<std::string> foreign_trace_ids;  // trace ids of generated parents / foreign spans
 };
 
 struct Failure
@@ -241,14 +322,65 @@ struct Failure
     }                                              \
   } while (0)
 
+bool same_identity(const tr::SpanContext &a, const tr::SpanContext &b)
+{
+  return a.trace_id() == b.trace_id() && a.span_id() == b.span_id() && a.trace_flags() == b.trace_flags() &&
+         a.IsRemote() == b.IsRemote() && a.trace_state()->ToHeader() == b.trace_state()->ToHeader();
+}
+
+const char *validity_class(const tr::SpanContext &c)
+{
+  if (c.IsValid())
+    return "valid";
+  if (c.span_id().IsValid())
+    return "half-valid(trace-id-zero)";
+  if (c.trace_id().IsValid())
+    return "half-valid(span-id-zero)";
+  return "all-zero";
+}
+
 // run one generated program on the calling thread
 void run_program(vh::Reader &rd, Env &e, ThreadResult &res, const std::string &label)
 {
   std::vector<LiveSpan> spans;
-  std::vector<std::pair<size_t, std::unique_ptr<tr::Scope>>> scopes;  // (span index, scope)
-  std::set<std::string> seen_span_ids;
-  unsigned nops = 2 + rd.below(12);
+  std::vector<ActiveEntry> scopes;
+  std::set<std::string> seen_span_ids;     // ids handed out by the tracer under test
+  std::set<std::string> foreign_span_ids;  // span ids of generated parents / foreign spans
+  std::set<std::string> known_trace_ids;   // every trace id that appeared in this program so far
+  unsigned nforeign = 0;
+  unsigned nops     = 2 + rd.below(12);
+  const bool scripted_sampler = e.sk == kScripted || e.sk == kParentScripted;
   auto note     = [&](const std::string &s) { res.notes += " " + label + s + "\n"; };
+  // a context that did not come from the tracer under test enters the program
+  auto learn = [&](const tr::SpanContext &p) {
+    if (p.trace_id().IsValid() && known_trace_ids.insert(sg::hex(p.trace_id())).second)
+      res.foreign_trace_ids.push_back(sg::hex(p.trace_id()));
+    if (p.span_id().IsValid())
+      foreign_span_ids.insert(sg::hex(p.span_id()));
+  };
+  // a span that carries no valid context, in the ways an application comes by one
+  auto gen_invalid_span = [&](std::string &what) -> otel::nostd::shared_ptr<tr::Span> {
+    switch (rd.weighted({3, 1, 1}))
+    {
+      case 0:
+      {
+        tr::SpanContext p = sg::gen_span_context(rd, false);
+        learn(p);
+        what = "DefaultSpan(" + sg::show_ctx(p) + ")";
+        res.tags.push_back(std::string("invalid-span-") + validity_class(p));
+        return otel::nostd::shared_ptr<tr::Span>(new tr::DefaultSpan(p));
+      }
+      case 1:
+      {
+        what = "NoopTracer-span";
+        std::shared_ptr<tr::Tracer> nt = std::make_shared<tr::NoopTracer>();
+        return nt->StartSpan("noop");
+      }
+      default:
+        what = "GetSpan(Context{})";
+        return tr::GetSpan(ctxn::Context{});
+    }
+  };
   try
   {
     // "nest" / "unwind" bursts drive the active-span stack deep (the runtime context's storage grows
@@ -285,7 +417,7 @@ void run_program(vh::Reader &rd, Env &e, ThreadResult &res, const std::string &l
       else
       {
         ++op;
-        kind = rd.weighted({6, 3, 2, 2, 1, 1});
+        kind = rd.weighted({6, 3, 2, 2, 1, 1, 3});
         if (kind == 4)
         {
           chain_left = 3 + rd.below(9);
@@ -312,11 +444,11 @@ void run_program(vh::Reader &rd, Env &e, ThreadResult &res, const std::string &l
         tr::StartSpanOptions opt;
         tr::SpanContext active = tr::SpanContext::GetInvalid();
         if (!scopes.empty())
-          active = spans[scopes.back().first].ctx;
-        tr::SpanContext expected_parent = active;  // default: the active span (invalid if none)
+          active = scopes.back().ctx;
+        tr::SpanContext expected_parent = active;  // default: the active span (no valid parent if none / invalid)
         std::string form;
         int mechanisms = active.IsValid() ? 1 : 0;
-        switch (forced_none ? 0 : rd.weighted({4, 3, 2, 3, 2, 2, 1}))
+        switch (forced_none ? 0 : rd.weighted({4, 3, 2, 3, 2, 2, 1, 3, 1}))
         {
           case 0:
             form = "none";
@@ -324,6 +456,7 @@ void run_program(vh::Reader &rd, Env &e, ThreadResult &res, const std::string &l
           case 1:
           {
             tr::SpanContext p = sg::gen_span_context(rd, true);
+            learn(p);
             opt.parent        = p;
             expected_parent   = p;
             form              = "ctx:" + sg::show_ctx(p);
@@ -337,8 +470,9 @@ void run_program(vh::Reader &rd, Env &e, ThreadResult &res, const std::string &l
           case 2:
           {
             tr::SpanContext p = sg::gen_span_context(rd, false);
+            learn(p);
             opt.parent        = p;  // invalid explicit parent: falls back to the active span
-            form              = "invalid-ctx";
+            form              = "invalid-ctx:" + sg::show_ctx(p);
             res.tags.push_back("invalid-explicit-parent");
             break;
           }
@@ -358,6 +492,7 @@ void run_program(vh::Reader &rd, Env &e, ThreadResult &res, const std::string &l
             else
             {
               tr::SpanContext p = sg::gen_span_context(rd, true);
+              learn(p);
               otel::nostd::shared_ptr<tr::Span> ds(new tr::DefaultSpan(p));
               cx              = cx.SetValue(tr::kSpanKey, ds);
               expected_parent = p;
@@ -391,6 +526,49 @@ void run_program(vh::Reader &rd, Env &e, ThreadResult &res, const std::string &l
             res.tags.push_back("root-marker-false");
             break;
           }
+          case 7:
+          {
+            // an explicit Context that HOLDS a span, but one without a valid context (a NoopTracer's
+            // span, a DefaultSpan around an invalid / half-valid context, GetSpan() of an empty context
+            // stored back): no valid parent comes from this Context, so unless it is marked as root the
+            // span active on the thread is the parent
+            std::string what;
+            otel::nostd::shared_ptr<tr::Span> is = gen_invalid_span(what);
+            unsigned marker                      = static_cast<unsigned>(rd.weighted({3, 1, 2}));  // none, false, true
+            bool marker_first                    = rd.coin();
+            ctxn::Context cx;
+            if (marker && marker_first)
+              cx = cx.SetValue(tr::kIsRootSpanKey, marker == 2);
+            cx = cx.SetValue(tr::kSpanKey, is);
+            if (marker && !marker_first)
+              cx = cx.SetValue(tr::kIsRootSpanKey, marker == 2);
+            is         = otel::nostd::shared_ptr<tr::Span>();  // the Context owns it now
+            opt.parent = cx;
+            form       = std::string("Context{") + (marker && marker_first ? (marker == 2 ? "root, " : "root=false, ") : "") +
+                   what + (marker && !marker_first ? (marker == 2 ? ", root" : ", root=false") : "") + "}";
+            if (marker == 2)
+            {
+              expected_parent = tr::SpanContext::GetInvalid();
+              res.tags.push_back("context-invalid-span+root");
+              ++mechanisms;
+            }
+            else
+            {
+              res.tags.push_back("context-invalid-span");
+              if (active.IsValid())
+                res.tags.push_back("context-invalid-span-over-valid-active");
+            }
+            break;
+          }
+          case 8:
+          {
+            // a snapshot of the thread's runtime context, handed over explicitly: it holds the active
+            // span (if any), so both mechanisms name the same parent
+            opt.parent = ctxn::RuntimeContext::GetCurrent();
+            form       = "Context{=RuntimeContext::GetCurrent()}";
+            res.tags.push_back("context-snapshot");
+            break;
+          }
           default:
           {
             ctxn::Context cx;
@@ -402,36 +580,66 @@ void run_program(vh::Reader &rd, Env &e, ThreadResult &res, const std::string &l
           }
         }
         // scripted sampler: set up the next answer
-        tl_script.decision          = static_cast<sdkt::Decision>(rd.weighted({2, 2, 4}));  // DROP, RECORD_ONLY, RECORD_AND_SAMPLE
-        tl_script.give_trace_state  = rd.chance(35);
-        tl_script.trace_state_header = "samp=" + std::to_string(rd.below(50));
-        int calls_before            = tl_sampler_calls;
+        tl_script.decision         = static_cast<sdkt::Decision>(rd.weighted({2, 2, 4}));  // DROP, RECORD_ONLY, RECORD_AND_SAMPLE
+        tl_script.give_trace_state = rd.chance(35);
+        // the sampler's trace state may be EMPTY (yet given): it still replaces the parent's
+        unsigned tsn                 = rd.below(50);
+        tl_script.trace_state_header = tsn >= 40 ? std::string() : "samp=" + std::to_string(tsn);
+        int calls_before             = tl_sampler_calls;
+        static const char *dnames[]  = {"DROP", "RECORD_ONLY", "RECORD_AND_SAMPLE"};
+        note("Start(parent=" + form + ", active=" + (scopes.empty() ? std::string("-") : scopes.back().label) +
+             (scripted_sampler ? std::string(", script=") + dnames[static_cast<int>(tl_script.decision)] +
+                                     (tl_script.give_trace_state ? "+ts'" + tl_script.trace_state_header + "'" : "")
+                               : std::string()) +
+             ") -> span#" + std::to_string(spans.size()));
+        if (!scopes.empty() && scopes.back().label[0] == 'f')
+        {
+          res.tags.push_back("start-under-foreign-active");
+          if (!active.IsValid())
+            res.tags.push_back("start-under-invalid-active");
+        }
 
         auto span = e.tracer->StartSpan("s", opt);
         T_CHECK(span != nullptr, "StartSpan returned null");
         tr::SpanContext got = span->GetContext();
-        note("Start(parent=" + form + ", active=" + (active.IsValid() ? sg::hex(active.span_id()) : "-") + ") -> " +
-             sg::show_ctx(got));
+        const std::string where = " (span#" + std::to_string(spans.size()) + ", parent form " + form + ", active " +
+                                  (scopes.empty() ? std::string("-") : sg::show_ctx(active)) + ")";
         // ---- oracle
-        T_CHECK(got.IsValid(), "new span has an invalid context");
-        T_CHECK(!got.IsRemote(), "new span's context is marked remote");
+        T_CHECK(got.IsValid(), "new span has an invalid context: " << sg::show_ctx(got) << where);
+        T_CHECK(!got.IsRemote(), "new span's context is marked remote" << where);
         std::string sid = sg::hex(got.span_id());
-        T_CHECK(seen_span_ids.insert(sid).second, "span id " << sid << " was handed out twice");
+        std::string tid = sg::hex(got.trace_id());
+        T_CHECK(seen_span_ids.insert(sid).second, "span id " << sid << " was handed out twice" << where);
+        T_CHECK(!foreign_span_ids.count(sid),
+                "span id " << sid << " is not fresh: it is the span id of a parent / foreign context of this program"
+                           << where);
+        if (e.scripted_ids)
+          T_CHECK(is_counter_span_id(got.span_id()),
+                  "span id " << sid << " was not produced by the configured id generator" << where);
         res.all_span_ids.push_back(sid);
         bool has_parent = expected_parent.IsValid();
         if (has_parent)
         {
           T_CHECK(got.trace_id() == expected_parent.trace_id(),
-                  "trace id " << sg::hex(got.trace_id()) << " differs from the parent's "
-                              << sg::hex(expected_parent.trace_id()) << " (parent form " << form << ")");
-          T_CHECK(!(got.span_id() == expected_parent.span_id()), "span id equals the parent's span id");
+                  "trace id " << tid << " differs from the parent's " << sg::hex(expected_parent.trace_id()) << where);
+          T_CHECK(!(got.span_id() == expected_parent.span_id()), "span id equals the parent's span id" << where);
         }
         else
         {
-          res.new_trace_ids.push_back(sg::hex(got.trace_id()));
+          // a new trace: the trace id is fresh - not the active span's, not that of any context seen
+          // so far in this program (parents, foreign spans, earlier spans)
+          T_CHECK(known_trace_ids.insert(tid).second,
+                  "no valid parent, yet the trace id " << tid << " is not fresh: it already appeared in this program"
+                                                      << where);
+          if (e.scripted_ids)
+            T_CHECK(is_counter_trace_id(got.trace_id()),
+                    "trace id " << tid << " of a new trace was not produced by the configured id generator" << where);
+          res.new_trace_ids.push_back(tid);
+          if (!scopes.empty() && !active.IsValid())
+            res.tags.push_back(std::string("root-under-active-") + validity_class(active));
         }
         // expected sampling decision
-        bool known_decision = true, exp_sampled = false, exp_recording = false;
+        bool exp_sampled = false, exp_recording = false;
         bool scripted_consulted = false;
         switch (e.sk)
         {
@@ -450,6 +658,7 @@ void run_program(vh::Reader &rd, Env &e, ThreadResult &res, const std::string &l
                   expected_parent, got.trace_id(), "s", tr::SpanKind::kInternal,
                   otel::common::NoopKeyValueIterable(), tr::NullSpanContext());
               exp_sampled = exp_recording = rr.IsSampled();
+              res.tags.push_back(exp_sampled ? "ratio-decided-sample" : "ratio-decided-drop");
             }
             break;
           case kParentOn:
@@ -482,27 +691,32 @@ void run_program(vh::Reader &rd, Env &e, ThreadResult &res, const std::string &l
           if (has_parent && expected_parent.IsSampled() && !exp_sampled)
             res.tags.push_back("unsampled-child-of-sampled-parent");
         }
-        (void)known_decision;
         T_CHECK(got.IsSampled() == exp_sampled,
                 "sampled flag is " << got.IsSampled() << " but the sampler's decision was "
                                    << (exp_sampled ? "RECORD_AND_SAMPLE" : "not sampled") << " (parent "
-                                   << (has_parent ? sg::show_ctx(expected_parent) : std::string("none")) << ")");
+                                   << (has_parent ? sg::show_ctx(expected_parent) : std::string("none")) << ")" << where);
         T_CHECK((got.trace_flags().flags() & ~tr::TraceFlags::kIsSampled) == 0,
-                "flags byte " << int(got.trace_flags().flags()) << " has bits beyond W3C level 1 set");
+                "flags byte " << int(got.trace_flags().flags()) << " has bits beyond W3C level 1 set" << where);
         T_CHECK(span->IsRecording() == exp_recording, "IsRecording() is " << span->IsRecording() << ", expected "
-                                                                          << exp_recording);
-        // trace state: the sampler's if given, else the parent's, else empty
+                                                                          << exp_recording << where);
+        // trace state: the sampler's if given (even an empty one), else the parent's, else empty
         std::string exp_ts;
         bool sampler_gave = scripted_consulted && tl_script.give_trace_state;
         if (sampler_gave)
         {
           exp_ts = tl_script.trace_state_header;
           res.tags.push_back("sampler-trace-state");
+          if (exp_ts.empty())
+          {
+            res.tags.push_back("sampler-empty-trace-state");
+            if (has_parent && !expected_parent.trace_state()->ToHeader().empty())
+              res.tags.push_back("sampler-empty-trace-state-over-parent's");
+          }
         }
         else if (has_parent)
           exp_ts = expected_parent.trace_state()->ToHeader();
         T_CHECK(got.trace_state()->ToHeader() == exp_ts, "trace state '" << got.trace_state()->ToHeader()
-                                                                         << "' expected '" << exp_ts << "'");
+                                                                         << "' expected '" << exp_ts << "'" << where);
         if (mechanisms >= 2)
           res.tags.push_back("2-parent-mechanisms");
         LiveSpan ls;
@@ -514,13 +728,25 @@ void run_program(vh::Reader &rd, Env &e, ThreadResult &res, const std::string &l
           res.never_exported.push_back(sid);
         // remember what the exporter must see for this span once it ends
         if (exp_recording)
-          res.expect_exported.emplace_back(sid, has_parent ? sg::hex(expected_parent.span_id()) : "0000000000000000");
+          res.expect_exported.push_back(ExpectExport{sid, has_parent ? sg::hex(expected_parent.span_id()) : "0000000000000000",
+                                                     tid, exp_ts, static_cast<uint8_t>(exp_sampled ? 1 : 0)});
       }
       else if (kind == 1)
       {
-        size_t i = forced_last ? spans.size() - 1 : rd.below(static_cast<uint32_t>(spans.size()));
-        note("Activate(span#" + std::to_string(i) + ")");
-        scopes.emplace_back(i, std::unique_ptr<tr::Scope>(new tr::Scope(spans[i].span)));
+        size_t i     = forced_last ? spans.size() - 1 : rd.below(static_cast<uint32_t>(spans.size()));
+        bool via_api = forced_last ? (chain_left & 1) != 0 : rd.coin();
+        note(std::string(via_api ? "WithActiveSpan" : "Activate") + "(span#" + std::to_string(i) + ")");
+        ActiveEntry a;
+        a.ctx   = spans[i].ctx;
+        a.label = "span#" + std::to_string(i);
+        if (via_api)
+        {
+          a.scope.reset(new tr::Scope(tr::Tracer::WithActiveSpan(spans[i].span)));
+          res.tags.push_back("with-active-span-api");
+        }
+        else
+          a.scope.reset(new tr::Scope(spans[i].span));
+        scopes.push_back(std::move(a));
         auto cur = tr::Tracer::GetCurrentSpan()->GetContext();
         T_CHECK(cur.span_id() == spans[i].ctx.span_id(), "GetCurrentSpan() after activation is not the activated span");
       }
@@ -532,8 +758,67 @@ void run_program(vh::Reader &rd, Env &e, ThreadResult &res, const std::string &l
         if (scopes.empty())
           T_CHECK(!cur.IsValid(), "a span is still active after the last scope was released");
         else
-          T_CHECK(cur.span_id() == spans[scopes.back().first].ctx.span_id(),
-                  "releasing a scope did not re-activate the previously active span");
+          T_CHECK(same_identity(cur, scopes.back().ctx),
+                  "releasing a scope did not re-activate the previously active span: current "
+                      << sg::show_ctx(cur) << ", expected " << scopes.back().label);
+      }
+      else if (kind == 6)
+      {
+        // ---- make a span active that this tracer did not create (Scope(DefaultSpan(ctx)) is how an
+        // extracted remote parent is activated); an INVALID one is no parent: spans started under it
+        // without an explicit parent are roots
+        ActiveEntry a;
+        otel::nostd::shared_ptr<tr::Span> fs;
+        std::string what;
+        switch (rd.weighted({4, 3, 1}))
+        {
+          case 0:
+          {
+            tr::SpanContext p = sg::gen_span_context(rd, true);
+            learn(p);
+            fs    = otel::nostd::shared_ptr<tr::Span>(new tr::DefaultSpan(p));
+            a.ctx = p;
+            what  = "DefaultSpan(" + sg::show_ctx(p) + ")";
+            res.tags.push_back("foreign-active-valid");
+            if (p.IsRemote())
+              res.tags.push_back("foreign-active-remote");
+            if (p.trace_flags().flags() & ~1u)
+              res.tags.push_back("foreign-active-extra-flag-bits");
+            if (!p.trace_state()->ToHeader().empty())
+              res.tags.push_back("foreign-active-trace-state");
+            break;
+          }
+          case 1:
+          {
+            fs    = gen_invalid_span(what);
+            a.ctx = fs->GetContext();
+            res.tags.push_back(std::string("foreign-active-") + validity_class(a.ctx));
+            break;
+          }
+          default:
+          {
+            // a live span of another provider (its parent is whatever is active now: irrelevant here)
+            fs    = e.other()->StartSpan("other");
+            a.ctx = fs->GetContext();
+            learn(a.ctx);
+            what = "other-provider-span";
+            res.tags.push_back("foreign-active-other-provider");
+            break;
+          }
+        }
+        bool via_api = rd.coin();
+        a.label      = "foreign#" + std::to_string(nforeign++) + "{" + what + "}";
+        note(std::string(via_api ? "WithActiveSpan(" : "Activate(") + a.label + ")");
+        if (via_api)
+          a.scope.reset(new tr::Scope(tr::Tracer::WithActiveSpan(fs)));
+        else
+          a.scope.reset(new tr::Scope(fs));
+        tr::SpanContext want = a.ctx;
+        fs                   = otel::nostd::shared_ptr<tr::Span>();  // the runtime context keeps it alive
+        scopes.push_back(std::move(a));
+        auto cur = tr::Tracer::GetCurrentSpan()->GetContext();
+        T_CHECK(same_identity(cur, want), "GetCurrentSpan() after activation is not the activated span: "
+                                              << sg::show_ctx(cur) << ", expected " << sg::show_ctx(want));
       }
       else
       {
@@ -571,21 +856,35 @@ void check_exports(vh::Case &c, Env &e, const std::vector<ThreadResult> &results
   {
     VH_CHECK(c, by_id.emplace(x.span_id, x).second, "span " << x.span_id << " was exported twice");
   }
-  std::set<std::string> all_ids, traces;
+  std::set<std::string> all_ids, traces, foreign_traces;
+  for (auto &r : results)
+    for (auto &t : r.foreign_trace_ids)
+      foreign_traces.insert(t);
   for (auto &r : results)
   {
     for (auto &id : r.all_span_ids)
       VH_CHECK(c, all_ids.insert(id).second, "span id " << id << " was handed out twice (across threads)");
     for (auto &t : r.new_trace_ids)
+    {
       VH_CHECK(c, traces.insert(t).second, "two new traces share the trace id " << t);
+      VH_CHECK(c, !foreign_traces.count(t), "a new trace got the trace id " << t << " of a parent / foreign context of the case");
+    }
     for (auto &id : r.never_exported)
       VH_CHECK(c, !by_id.count(id), "span " << id << " was not recorded (DROP) but reached the exporter");
     for (auto &ex : r.expect_exported)
     {
-      auto it = by_id.find(ex.first);
-      VH_CHECK(c, it != by_id.end(), "recorded span " << ex.first << " never reached the exporter");
-      VH_CHECK(c, it->second.parent_id == ex.second, "span " << ex.first << " recorded parent span id "
-                                                             << it->second.parent_id << ", expected " << ex.second);
+      auto it = by_id.find(ex.span_id);
+      VH_CHECK(c, it != by_id.end(), "recorded span " << ex.span_id << " never reached the exporter");
+      const Exported &x = it->second;
+      VH_CHECK(c, x.parent_id == ex.parent_id,
+               "span " << ex.span_id << " recorded parent span id " << x.parent_id << ", expected " << ex.parent_id);
+      VH_CHECK(c, x.trace_id == ex.trace_id,
+               "span " << ex.span_id << " recorded trace id " << x.trace_id << ", expected " << ex.trace_id);
+      VH_CHECK(c, x.flags == ex.flags && x.ctx_flags == ex.flags,
+               "span " << ex.span_id << " recorded trace flags " << int(x.flags) << " (SetTraceFlags) / " << int(x.ctx_flags)
+                       << " (SetIdentity), expected " << int(ex.flags));
+      VH_CHECK(c, x.trace_state == ex.trace_state, "span " << ex.span_id << " recorded trace state '" << x.trace_state
+                                                           << "', expected '" << ex.trace_state << "'");
     }
   }
 }
@@ -601,7 +900,8 @@ bool nontrivial_tags(const std::vector<std::string> &tags)
 {
   for (auto &t : tags)
     if (t == "2-parent-mechanisms" || t == "parent-extra-flag-bits" || t == "sampler-trace-state" ||
-        t == "dropped-span-as-parent")
+        t == "dropped-span-as-parent" || t == "start-under-foreign-active" || t == "context-invalid-span" ||
+        t == "context-invalid-span+root")
       return true;
   return false;
 }
@@ -610,8 +910,11 @@ bool nontrivial_tags(const std::vector<std::string> &tags)
 VH_TARGET(tree_program, 6,
           "non-trivial when 2+ parenting mechanisms are present at one StartSpan (e.g. an explicit "
           "parent while another span is active), or a remote parent carries extra flag bits, or the "
-          "sampler supplies a trace state, or a dropped span's context is used as parent; distinct = "
-          "distinct program text")
+          "sampler supplies a trace state (possibly empty), or a dropped span's context is used as parent, "
+          "or a span is started while a FOREIGN span is active (DefaultSpan around a generated valid / "
+          "half-valid / all-zero context, NoopTracer span, span of another provider), or the explicit "
+          "Context holds a span WITHOUT a valid context (with / without the root marker); distinct = "
+          "distinct program text (inputs only: no generated ids)")
 {
   Env e = make_env(c);
   std::vector<ThreadResult> res(1);
@@ -624,8 +927,8 @@ VH_TARGET(tree_program, 6,
 
 VH_TARGET(tree_threads, 12,
           "2..3 real threads, each with its own program and active-span stack (what one thread "
-          "activates must never resolve as parent on another); non-trivial when 2+ threads activated a "
-          "span; distinct = distinct program text")
+          "activates - own or foreign spans - must never resolve as parent on another); non-trivial when "
+          "2+ threads activated a span; distinct = distinct program text")
 {
   Env e       = make_env(c);
   unsigned nt = 2 + c.rd.below(2);
